@@ -8,7 +8,7 @@ use crate::sim::{finish_result, Hist, HistResult, Last, Params};
 use crate::subject::{Ctor, How, Kind};
 use crate::world::{KState, SrcStep, UpStep};
 
-pub const SCENARIOS: [&str; 7] = ["starve", "budget", "quiet_stale", "quiet_budget", "oscillate", "head_of_line", "wrap"];
+pub const SCENARIOS: [&str; 8] = ["starve", "budget", "quiet_stale", "quiet_budget", "oscillate", "head_of_line", "wrap", "big_cap"];
 
 fn mix(a: u64, b: u64) -> u64 {
     let mut x = a ^ b.wrapping_mul(0x9E37_79B9_7F4A_7C15);
@@ -30,6 +30,7 @@ pub fn run_scenario(p: &Params, name: &str, idx: u64) -> HistResult {
         "oscillate" => oscillate(p, seed),
         "head_of_line" => head_of_line(p, seed),
         "wrap" => wrap(p, seed),
+        "big_cap" => big_cap(p, seed),
         _ => panic!("unknown scenario {name}"),
     }
 }
@@ -788,6 +789,85 @@ fn wrap(p: &Params, seed: u64) -> HistResult {
     }
     if !w.has_violation() {
         h.finish(true, false);
+    }
+    finish_result(h)
+}
+
+// ---------------------------------------------------------------------- big_cap (C08, C02, C15)
+
+/// Capacities and populations far beyond the usual ones (more than 1024 children in one slot map,
+/// the 2048-slot group of the unbounded collections): children are pushed in chunks with polls in
+/// between, so that early children have been polled (and pinned) long before late slots are used
+/// for the first time.
+fn big_cap(p: &Params, seed: u64) -> HistResult {
+    let mut h = Hist::new(seed, p.trace);
+    h.w.armed.set(crate::sim::prop_tag(p.prop));
+    let w = h.w.clone();
+    w.fair_enabled.set(false);
+    let kind = p.kind.unwrap_or_else(|| *h.rng.pick(&[Kind::Fub, Kind::Fob, Kind::Fu, Kind::Fo, Kind::BufU]));
+    let total = if p.small { h.rng.range(40, 80) } else { *h.rng.pick(&[1030usize, 1100, 1500, 2050, 2100, 3100]) };
+    match kind {
+        Kind::BufU => {
+            let mut script = Vec::new();
+            let mut left = total;
+            while left > 0 {
+                let c = h.rng.range(50, 400).min(left);
+                script.extend(std::iter::repeat(UpStep::Item).take(c));
+                script.push(UpStep::Gap);
+                left -= c;
+            }
+            script.push(UpStep::End);
+            w.install_upstream(script, 0, 0, 0, 0);
+            h.construct(kind, Ctor::New, total, 0, None);
+        }
+        Kind::Fu | Kind::Fo => {
+            h.construct(kind, Ctor::New, 0, 0, None);
+        }
+        _ => {
+            h.construct(kind, Ctor::New, total, 0, None);
+        }
+    }
+    let mut pushed = 0;
+    while pushed < total && !w.has_violation() && h.subj.is_some() {
+        let chunk = h.rng.range(50, 400).min(total - pushed);
+        if kind == Kind::BufU {
+            // one poll pulls the next run of items; then open the gap for the following chunk
+            let wk = h.last_waker;
+            h.poll(wk);
+            w.up_open_gap(false);
+        } else {
+            for _ in 0..chunk {
+                let id = h.passive_fut();
+                let how = if kind.is_ordered() && h.rng.chance(1, 6) { How::Front } else { How::Back };
+                h.push_id(id, how);
+            }
+        }
+        pushed += chunk;
+        h.poll_until_all_polled(chunk / 40 + 12);
+        if h.rng.chance(1, 3) {
+            h.op_relocate();
+        }
+        // a few complete early, so that slots are reused while the population keeps growing
+        let ids = h.held.clone();
+        for _ in 0..h.rng.range(0, 20) {
+            if ids.is_empty() {
+                break;
+            }
+            let id = ids[h.rng.below(ids.len())];
+            h.op_complete(id, true);
+        }
+        for _ in 0..25 {
+            let wk = h.last_waker;
+            if h.poll(wk) != Last::Item || w.has_violation() || h.subj.is_none() {
+                break;
+            }
+        }
+    }
+    if !w.has_violation() {
+        h.drain();
+    }
+    if !w.has_violation() {
+        h.finish(h.hash & 1 == 1, false);
     }
     finish_result(h)
 }
